@@ -1470,6 +1470,18 @@ func (f *Frugal) validateScopes(includes map[string]*Frugal) error {
 }
 
 func (f *Frugal) validateScopeTypes(scope *Scope, includes map[string]*Frugal) error {
+	if scope.Prefix != nil {
+		// Each prefix variable becomes a parameter of the generated
+		// publisher and subscriber methods, so it can be named only once.
+		seen := make(map[string]bool)
+		for _, variable := range scope.Prefix.Variables {
+			if seen[variable] {
+				return fmt.Errorf("Duplicate prefix variable %s in scope %s",
+					variable, scope.Name)
+			}
+			seen[variable] = true
+		}
+	}
 	for _, op := range scope.Operations {
 		if !f.isValidType(op.Type) {
 			return fmt.Errorf("Invalid operation type %s for %s.%s",
